@@ -22,6 +22,9 @@ ChemicalCompositionVec / ChemicalCompositionMap with the fields `composition: Ve
   python3 tools/gen_comp.py --ties     additionally compile coq/proofs/CompTie.v block by block (a block = the lemmas of
                                        one function, between `(* BEGIN TIE f (needs: ...) *)` and `(* END TIE f *)`) and
                                        print `tie <f>: OK | FAILED | SKIPPED` for every function
+  python3 tools/gen_comp.py --ties --field   the same in FIELD MODE (tools/tie_modes.py, coq/model/TieTac.v): the ties are
+                                       compiled with `OF : OField N` in context and `leaf := leaf_field`
+  --only=a,b                           (with --ties) only the named functions (v_calc_mass, m_fmass, ...)
 
 FUNCTIONS (generated name <- source; prefix v_ for composition_list.rs, m_ for composition_map.rs)
   new find find_str get_str get set inc iter iter_mut get_ref into_inner calc_mass mass fmass has_mass_cached
@@ -1871,54 +1874,15 @@ def translate():
 
 
 # ------------------------------------------------------------------ which ties of CompTie.v still hold
-def check_ties(worlds):
-    """compile CompTie.v block by block: common text + the block of one function + the blocks it needs"""
-    text = open(TIE, encoding="utf-8").read()
-    blocks, common, pos = {}, [], 0
-    for m in re.finditer(r"\(\* BEGIN TIE (\w+)(?: \(needs: ([\w ]*)\))? \*\)\n(.*?)\(\* END TIE \1 \*\)\n", text, re.S):
-        common.append(text[pos:m.start()])
-        common.append("@@%s@@" % m.group(1))
-        blocks[m.group(1)] = ((m.group(2) or "").split(), m.group(3))
-        pos = m.end()
-    common.append(text[pos:])
-
-    def closure(n, acc):
-        for d in blocks[n][0]:
-            if d in blocks and d not in acc:
-                closure(d, acc)
-        if n not in acc:
-            acc.append(n)
-        return acc
-    run = lambda args, cwd: subprocess.run(args, cwd=cwd, stdout=subprocess.PIPE, stderr=subprocess.STDOUT, universal_newlines=True)
-    for f in ("model/ImpC.v", "gen/CompGen.v"):
-        r = run(["coqc", "-Q", ".", "CE", "-w", "-notation-overridden", f], COQ)
-        if r.returncode != 0:
-            print("tie check: %s does not compile\n%s" % (f, r.stdout))
-            return 1
-    bad = 0
-    with tempfile.TemporaryDirectory() as tmp:
-        for w in worlds:
-            for n0 in w.wanted:
-                n = "%s_%s" % (w.prefix, n0)
-                if n0 in w.skipped:
-                    print("tie %s: SKIPPED (%s)" % (n, w.skipped[n0]))
-                    bad += 1
-                    continue
-                if n not in blocks:
-                    print("tie %s: no block in CompTie.v" % n)
-                    bad += 1
-                    continue
-                keep = closure(n, [])
-                body = "".join(c if not c.startswith("@@") else (blocks[c[2:-2]][1] if c[2:-2] in keep else "") for c in common)
-                path = os.path.join(tmp, "CompTie_%s.v" % n)
-                open(path, "w").write(body)
-                r = run(["coqc", "-Q", COQ, "CE", "-w", "-notation-overridden", path], tmp)
-                if r.returncode == 0:
-                    print("tie %s: OK" % n)
-                else:
-                    bad += 1
-                    msg = [l for l in r.stdout.splitlines() if l.strip()]
-                    print("tie %s: FAILED (%s)" % (n, " | ".join(msg[-3:])[:300]))
+def check_ties(worlds, field=False, only=None):
+    """compile CompTie.v block by block: common text + the block of one function + the blocks it needs
+    (field=True: in field mode, see tools/tie_modes.py)"""
+    import tie_modes
+    if not tie_modes.compile_deps(COQ, ["model/TieTac.v", "model/ImpC.v", "gen/CompGen.v"]):
+        return 1
+    wanted = ["%s_%s" % (w.prefix, n0) for w in worlds for n0 in w.wanted]
+    skipped = {"%s_%s" % (w.prefix, n0): w.skipped[n0] for w in worlds for n0 in w.wanted if n0 in w.skipped}
+    bad = tie_modes.check_blocks(COQ, TIE, wanted, skipped, field=field, only=only, stem="CompTie")
     return 1 if bad else 0
 
 
@@ -1940,8 +1904,10 @@ def main():
     print("gen_comp: %d functions translated (%s), %d skipped%s" % (
         sum(len(w.emitted) for w in worlds), ", ".join("%s_%s" % (w.prefix, n) for w in worlds for n in w.emitted), nskip,
         "" if old == text else " [rewritten]"))
-    if "--ties" in sys.argv[1:]:
-        return check_ties(worlds)
+    import tie_modes
+    ties, field, only = tie_modes.flags(sys.argv[1:])
+    if ties:
+        return check_ties(worlds, field, only)
     return 0
 
 
